@@ -63,6 +63,7 @@ type Exec struct {
 	specDepth   int
 	boxes       map[*Term]boxInfo
 	shiftCache  map[string]*Term
+	specDecls   map[string]*FuncDecl
 	allocOrder  map[*Term]int
 	bounded     map[*Term]bool
 	typeIDs     map[string]int
@@ -79,7 +80,7 @@ func NewExec(P *Program) *Exec {
 	p := NewPool()
 	ex := &Exec{P: P, p: p, tm: NewTypeMap(p), regionSorts: map[string]*Sort{}, epochMerges: map[int]*epochMerge{},
 		ptrIDs: map[string]*Term{}, ptrByID: map[*Term]*PtrV{}, condClosures: map[*Term][]condClosure{}, oblCount: map[string]int{},
-		assumptions: map[string]bool{}, boxes: map[*Term]boxInfo{}, shiftCache: map[string]*Term{}, typeIDs: map[string]int{}, inputs: map[string]*Term{}, sentinels: map[string]*Term{}, strLits: map[string]*Term{},
+		assumptions: map[string]bool{}, boxes: map[*Term]boxInfo{}, shiftCache: map[string]*Term{}, specDecls: map[string]*FuncDecl{}, typeIDs: map[string]int{}, inputs: map[string]*Term{}, sentinels: map[string]*Term{}, strLits: map[string]*Term{},
 		allocOrder: map[*Term]int{}, bounded: map[*Term]bool{}}
 	p.DistinctFn = ex.distinct
 	constArrs := map[string]*Term{}
@@ -510,6 +511,7 @@ func (ex *Exec) execLoop(fr *frame, l *Loop, in []edge) []edge {
 			}
 			t := ex.p.Fresh("loop:"+nm, ex.tm.SortOf(ph.Type()))
 			ex.facts = append(ex.facts, ex.tm.InRange(t, ph.Type(), 0))
+			ex.pointerBound(h, t, ph.Type())
 			h.vals[ph] = t
 		} else if !ex.phiInvariant(ph, l) {
 			ex.fail("loop-carried pointer phi %s cannot be havoced", ph.Name())
@@ -534,6 +536,11 @@ func (ex *Exec) execLoop(fr *frame, l *Loop, in []edge) []edge {
 	}
 	if len(backs) > 0 {
 		bs := ex.enterBlock(l.Header, backs)
+		if ex.noOblige == 0 {
+			ex.obls = append(ex.obls, &Obligation{Name: fmt.Sprintf("%s#loop%d.reach", ex.fnName(ex.top), l.Ordinal), Kind: "reach",
+				Detail: "the loop back edge is reachable under the assumed invariants (vacuity guard)", Goal: ex.p.False(), PC: bs.pc,
+				NFacts: len(ex.facts), Func: ex.fnName(ex.top), Props: ex.curProps, Pos: pos})
+		}
 		for i, inv := range spec.Invariants {
 			g := ex.evalBool(ex.ctxFor(fr, bs, lc), inv)
 			o := ex.oblige(bs, fmt.Sprintf("loop%d.preserve", l.Ordinal), fmt.Sprintf("invariant %d: %s", i, inv.Text), g, pos)
